@@ -228,13 +228,20 @@ static void do_op(void)
   else if (!strcmp(op, "slink")) {
     ESL_MSA *msa = build_msa(); int *c = NULL, *nin = NULL, nc = -1, st; int pre = (int) h_argi("pre", 0), i;
     if (!msa) { h_out("bad-op"); return; }
-    if (pre) {   /* caller-provided result arrays (the other documented calling convention) */
+    if (pre == 1) {   /* caller-provided result arrays (the other documented calling convention) */
       c = malloc(sizeof(int) * msa->nseq); nin = malloc(sizeof(int) * msa->nseq);
       for (i = 0; i < msa->nseq; i++) { c[i] = -7; nin[i] = -7; }
     }
-    st = esl_msacluster_SingleLinkage(msa, h_argbits("maxid"), &c, &nin, &nc);
+    /* pre=2: assignments not requested (opt_c == NULL); pre=3: sizes not requested (opt_nin == NULL) */
+    st = esl_msacluster_SingleLinkage(msa, h_argbits("maxid"), pre == 2 ? NULL : &c, pre == 3 ? NULL : &nin, &nc);
     if (st != eslOK) h_out("%s", h_status(st));
-    else { o_reset(); o_add("ok nc=%d c=", nc); o_ilist(c, msa->nseq); o_add(" nin="); o_ilist(nin, nc); h_out("%s", ob); }
+    else {
+      o_reset(); o_add("ok nc=%d c=", nc);
+      if (pre == 2) o_add("-"); else o_ilist(c, msa->nseq);
+      o_add(" nin=");
+      if (pre == 3) o_add("-"); else o_ilist(nin, nc);
+      h_out("%s", ob);
+    }
     free(c); free(nin); esl_msa_Destroy(msa);
   }
   else if (!strcmp(op, "cluster")) {
